@@ -132,15 +132,39 @@ Theorem C05_R2_plain_capture :
 Proof. exact capture_tail. Qed.
 Print Assumptions C05_R2_plain_capture.
 
+(* loops in the walk: a Lazyloop's maximum is lowered to its minimum (tree.go:811-812), and the body of a
+   loop whose maximum is 1 is itself at the end (815-821) *)
+Theorem C05_R2_lazyloop_min :
+  forall e o m n r, 0 <= m <= n -> m < INF -> rw_hrefines e (NLoop true o m n r) (NLoop true o m m r).
+Proof. exact lazyloop_min_tail. Qed.
+Print Assumptions C05_R2_lazyloop_min.
+
+Theorem C05_R2_loop_max_one :
+  forall e lazy o m r r', m = 0 \/ m = 1 -> rw_hrefines e r r' ->
+    rw_hrefines e (NLoop lazy o m 1 r) (NLoop lazy o m 1 r').
+Proof. exact loop_one_tail. Qed.
+Print Assumptions C05_R2_loop_max_one.
+
 (* PARTIAL: [ends_to] (Model/Rewrite.v) covers the walk of eliminateEndingBacktracking through
    single-character loops, Atomic / lookaround / plain-capture / group children, the last child of a
-   concatenation, all branches of alternations and conditionals, and the Atomic wrapper; it does not
-   cover the descent into Loop / Lazyloop bodies (tree.go:811-829), and it excludes balancing captures,
-   for which the step is false (next theorem). *)
+   concatenation, all branches of alternations and conditionals, the Atomic wrapper, Lazyloop max := min
+   and loops with maximum 1; it does not cover the descent to the last expression of a loop with a larger
+   maximum (FindLastExpressionInLoopForAutoAtomic, tree.go:823-827), and it excludes balancing captures,
+   for which the step is false (below).  One-directional (whenever the ORIGINAL tree evaluates, the
+   rewritten one does and the first results are equal) because of Lazyloop max := min, which drops
+   iterations the model would otherwise have to have fuel for; every other step holds both ways. *)
 Theorem C05_R2_eliminate_ending_sound_partial :
-  forall e t t', ends_to e t t' -> rw_heq e t t'.
+  forall e t t', ends_to e t t' -> rw_hrefines e t t'.
 Proof. exact eliminate_ending_sound. Qed.
 Print Assumptions C05_R2_eliminate_ending_sound_partial.
+
+(* ... hence the search finds the same match on the rewritten root *)
+Theorem C05_R2_eliminate_ending_find_partial :
+  forall e root root' rtl, ends_to e root root' ->
+    forall f start prevlen r, find e f root rtl start prevlen = Ok r ->
+    exists f', find e f' root' rtl start prevlen = Ok r.
+Proof. exact eliminate_ending_find. Qed.
+Print Assumptions C05_R2_eliminate_ending_find_partial.
 
 (* REFUTED step: the child of a BALANCING capture is not an atomic position.  Witness:
    (?<1-2>x|(?<2>x)) on "x" — x|(?<2>x) and (?>x|(?<2>x)) have the same first result, the two captures
@@ -569,3 +593,19 @@ Example C05_ex_R6_atomic :
   rw_positions (sem e 6 (NAtomic (NAlternate 0 [NConcat 0 [ab; NChar COne 0 99]; NConcat 0 [ab; NChar COne 0 100]])) rw_s0) = [3] /\
   rw_positions (sem e 6 (NAtomic (NConcat 0 [ab; NAtomic (NAlternate 0 [NConcat 0 [NChar COne 0 99]; NConcat 0 [NChar COne 0 100]])])) rw_s0) = [3].
 Proof. vm_compute. split; reflexivity. Qed.
+
+(* R2 loops: a lazy loop of the group ab in atomic position never iterates ({0,inf} lazy becomes {0,0});
+   and an optional group around a-star keeps its meaning when the inner loop becomes atomic *)
+Example C05_ex_R2_loops :
+  let e := rw_ex_env [97; 98; 97; 98] in
+  let ab := NMulti 0 [97; 98] in
+  rw_positions (sem e 9 (NLoop true 0 0 INF ab) rw_s0) = [0; 2; 4] /\
+  rw_positions (sem e 9 (NLoop true 0 0 0 ab) rw_s0) = [0] /\
+  ends_to e (NLoop false 0 0 1 (NCharLoop COne LGreedy 0 97 0 INF)) (NLoop false 0 0 1 (NCharLoop COne LAtomic 0 97 0 INF)) /\
+  rw_positions (sem e 9 (NLoop false 0 0 1 (NCharLoop COne LGreedy 0 97 0 INF)) rw_s0) = [1; 0; 0] /\
+  rw_positions (sem e 9 (NLoop false 0 0 1 (NCharLoop COne LAtomic 0 97 0 INF)) rw_s0) = [1; 0].
+Proof.
+  cbv zeta. split; [vm_compute; reflexivity|]. split; [vm_compute; reflexivity|].
+  split; [|vm_compute; split; reflexivity].
+  apply ET_loop_one; [left; reflexivity|]. apply (ET_loop _ COne LGreedy). exact I.
+Qed.
